@@ -1,13 +1,14 @@
-(* C03/Model.v — which certificates a signature is checked against, as coded.
-   Mirrors: MetaData.certs (mdstore.py 479-514: KeyDescriptor use filter over all role
-   descriptors; KeyError on a KeyDescriptor without certificate text), SecurityContext._check_signature certificate selection (sigver.py 1365-1407:
-   metadata first, embedded X509 certificates only if that list is empty and
-   only_use_keys_in_metadata is false, empty => MissingKey) and its verification loop (1504-1525:
-   xmlsec1 restricted to the supplied certificate, first success wins),
-   Request._do_redirect_sig_check (request.py 109-115): any(verify_redirect_signature(.., cert)) over the
-   issuer's certificates, where sigver.verify_redirect_signature (566-599) first loads the certificate
-   (extract_rsa_key_from_x509_cert: ValueError on octets that are no X.509 certificate -- the exception
-   leaves the any() loop and Request.verify turns it into a rejection) and then calls the RSA primitive.
+(* C03/Model.v — which certificates a signature is checked against, as coded (after the repairs
+   2dad6239 and a9edf887; the pre-fix behaviour is kept as the _v0 definitions).
+   Mirrors: MetaData.certs (mdstore.py 479-519: KeyDescriptor use filter over all role descriptors; a
+   KeyDescriptor without certificate text contributes no certificate), SecurityContext._check_signature
+   certificate selection (sigver.py 1365-1407: metadata first, embedded X509 certificates only if that
+   list is empty and only_use_keys_in_metadata is false, empty => MissingKey) and its verification loop
+   (1504-1525: xmlsec1 restricted to the supplied certificate, first success wins),
+   Request._do_redirect_sig_check (request.py 109-124): a loop over the issuer's certificates calling
+   sigver.verify_redirect_signature (566-599), which first loads the certificate
+   (extract_rsa_key_from_x509_cert: ValueError on octets that are no X.509 certificate -- the loop goes on
+   to the next certificate, no other key is tried in its place) and then calls the RSA primitive.
    The receiver is long-lived: Entity.reload_metadata / MetadataStore.reload (entity.py 200-223,
    mdstore.py 1128-1138) replace the loaded metadata between verifications (a failed reload restores the
    previous set); every verification looks the issuer up in the set loaded at that moment.
@@ -41,15 +42,17 @@ Section Model.
     | (e', m) :: r => if String.eqb e e' then Some m else lookup_md e r
     end.
 
-  (* MetaData.certs(entity, "any", "signing"): "use" absent or == signing *)
+  (* MetaData.certs(entity, "any", "signing"): "use" absent or == signing; a KeyDescriptor without certificate
+     text is passed over (a9edf887) *)
   Definition extract_signing (role : list keydesc) : list cert :=
-    flat_map (fun kd => match fst kd with
-                        | None => [snd kd]
-                        | Some Signing => [snd kd]
-                        | Some Encryption => []
-                        end) role.
+    flat_map (fun kd => if blank (snd kd) then []
+                        else match fst kd with
+                             | None => [snd kd]
+                             | Some Signing => [snd kd]
+                             | Some Encryption => []
+                             end) role.
 
-  Definition walk_certs (md : metadata) (issuer : option string) : list cert :=
+  Definition signing_certs (md : metadata) (issuer : option string) : list cert :=
     match issuer with
     | None => []                                   (* certs(None): KeyError -> [] *)
     | Some e => match lookup_md e md with
@@ -58,12 +61,28 @@ Section Model.
                 end
     end.
 
-  (* extract_certs reads key_info["x509_data"][..]["x509_certificate"]["text"] of every KeyDescriptor whose
-     use matches: a KeyDescriptor without certificate text raises KeyError out of certs() -- _check_signature
-     turns that into "no certificates in metadata" (except KeyError: _certs = []), _do_redirect_sig_check
-     lets it propagate (request rejected, nothing tried): either way no metadata certificate is used *)
-  Definition signing_certs (md : metadata) (issuer : option string) : list cert :=
-    let cs := walk_certs md issuer in if existsb blank cs then [] else cs.
+  (* ---- before a9edf887 (finding C03-F2): extract_certs read key_info["x509_data"][..]["x509_certificate"]
+     ["text"] of every KeyDescriptor whose use matches; one without certificate text raised KeyError out of
+     certs() -- _check_signature turned that into "no certificates in metadata" (except KeyError: _certs = []),
+     _do_redirect_sig_check let it propagate (request rejected): either way no metadata certificate was used *)
+  Definition extract_signing_v0 (role : list keydesc) : list cert :=
+    flat_map (fun kd => match fst kd with
+                        | None => [snd kd]
+                        | Some Signing => [snd kd]
+                        | Some Encryption => []
+                        end) role.
+
+  Definition walk_certs_v0 (md : metadata) (issuer : option string) : list cert :=
+    match issuer with
+    | None => []
+    | Some e => match lookup_md e md with
+                | None => []
+                | Some roles => flat_map extract_signing_v0 roles
+                end
+    end.
+
+  Definition signing_certs_v0 (md : metadata) (issuer : option string) : list cert :=
+    let cs := walk_certs_v0 md issuer in if existsb blank cs then [] else cs.
 
   Record input := {
     md : metadata;
@@ -76,13 +95,15 @@ Section Model.
   }.
 
   (* the certificates the signature is checked against *)
-  Definition candidates (x : input) : list cert :=
-    let certs := signing_certs (md x) (claimed x) in
+  Definition select (certs : list cert) (x : input) : list cert :=
     if detached x then certs
     else match certs with
          | [] => if only_md x then [] else embedded x
          | _ => certs
          end.
+
+  Definition candidates (x : input) : list cert := select (signing_certs (md x) (claimed x)) x.
+  Definition candidates_v0 (x : input) : list cert := select (signing_certs_v0 (md x) (claimed x)) x.
 
   (* verification loop: certificates handed to the verifier, in order, up to the first success *)
   Fixpoint try_certs (cs : list cert) (mm : msg) (ss : sig) : bool * list cert :=
@@ -92,27 +113,41 @@ Section Model.
                 else let '(ok, h) := try_certs r mm ss in (ok, c :: h)
     end.
 
-  (* detached (query string) signatures, verified in-process: a certificate that does not load raises
-     out of the any() loop => rejection, the remaining certificates are not tried; the certificates
-     listed are those whose public key reached the RSA primitive *)
+  (* detached (query string) signatures, verified in-process: a certificate that does not load is skipped
+     (2dad6239); the certificates listed are those whose public key reached the RSA primitive *)
   Fixpoint try_detached (cs : list cert) (mm : msg) (ss : sig) : bool * list cert :=
     match cs with
     | [] => (false, [])
     | c :: r => if readable c
                 then if verify c mm ss then (true, [c])
                      else let '(ok, h) := try_detached r mm ss in (ok, c :: h)
+                else try_detached r mm ss
+    end.
+
+  Definition accept (x : input) : bool * list cert :=
+    if detached x then try_detached (candidates x) (m x) (s x) else try_certs (candidates x) (m x) (s x).
+
+  (* ---- before 2dad6239 (finding C03-F1): any(verify_redirect_signature(..)): a certificate that does not
+     load raised ValueError out of the loop => rejection, the remaining certificates were not tried *)
+  Fixpoint try_detached_v0 (cs : list cert) (mm : msg) (ss : sig) : bool * list cert :=
+    match cs with
+    | [] => (false, [])
+    | c :: r => if readable c
+                then if verify c mm ss then (true, [c])
+                     else let '(ok, h) := try_detached_v0 r mm ss in (ok, c :: h)
                 else (false, [])
     end.
 
-  (* does that loop end on a certificate that does not load? *)
+  (* did that loop end on a certificate that does not load? *)
   Fixpoint hits_unreadable (cs : list cert) (mm : msg) (ss : sig) : bool :=
     match cs with
     | [] => false
     | c :: r => if readable c then (if verify c mm ss then false else hits_unreadable r mm ss) else true
     end.
 
-  Definition accept (x : input) : bool * list cert :=
-    if detached x then try_detached (candidates x) (m x) (s x) else try_certs (candidates x) (m x) (s x).
+  (* the code before both repairs *)
+  Definition accept_v0 (x : input) : bool * list cert :=
+    if detached x then try_detached_v0 (candidates_v0 x) (m x) (s x) else try_certs (candidates_v0 x) (m x) (s x).
 
   (* ---- the long-lived receiver: verifications interleaved with metadata reloads ---- *)
   Record query := {
@@ -154,7 +189,13 @@ Arguments accept {cert msg sig}.
 Arguments candidates {cert msg sig}.
 Arguments try_certs {cert msg sig}.
 Arguments signing_certs {cert}.
-Arguments walk_certs {cert}.
+Arguments walk_certs_v0 {cert}.
+Arguments signing_certs_v0 {cert}.
+Arguments extract_signing_v0 {cert}.
+Arguments select {cert msg sig}.
+Arguments candidates_v0 {cert msg sig}.
+Arguments try_detached_v0 {cert msg sig}.
+Arguments accept_v0 {cert msg sig}.
 Arguments extract_signing {cert}.
 Arguments lookup_md {cert}.
 Arguments try_detached {cert msg sig}.
